@@ -6,18 +6,20 @@ C01 — Type soundness: accepted programs never get stuck on a type error.
 
 What is modelled are the *guards* soundness rests on (the compiler's inference engine is not
 modelled — see notes/C01.md): the generic-call guard `unify` + `substitute`
-(`QM.Soundness`, mirroring typing.rs as of fix 8f4b36d) and the non-generic guard `is_compatible`
+(`QM.Soundness`, mirroring typing.rs as of fixes 8f4b36d and e4496af) and the non-generic guard `is_compatible`
 (`QM.Types.isCompatible`, C09's model); the meaning of a type is `QM.Types.inh` (C09's module
 `Core/Types/Inh.lean`).
 
 Contents
   1. the full-strength statement `GuardUnifySound rules` — kept as a `def`, because for the code
-     as it is (`Rules.current`) it is FALSE: two kernel-checked counterexamples
-     (`unify_cycle_arm_unsound`, `unify_union_merge_unsound`), each with the alternative rule under
-     which the same instance is handled correctly;
-  2. the F6 witness: under the rule before fix 8f4b36d (`Rules.beforeF6`) the guard accepts the F6
-     instance and a value of the argument type is outside the substituted parameter type; the
-     current rule rejects the instance — so soundness on that instance visibly depends on the fix;
+     as it is (`Rules.current`) it is FALSE: the kernel-checked counterexample
+     `unify_cycle_arm_unsound` / `guard_unify_sound_refuted` (a `Cycle` position is never checked),
+     with the alternative rule under which the same instance is rejected;
+  2. before/after witnesses of the two repaired defects: F6 (8f4b36d, union argument for a non-union
+     parameter: `Rules.beforeF6`) and the union/union merge (e4496af: `Rules.beforeMergeFix`) —
+     under the old rule the guard accepts the instance and a value of the argument type is outside
+     the substituted parameter type; under the current rule the instance is rejected resp. typed
+     correctly — so soundness on these instances visibly depends on the fixes;
   3. the list of typed entry points and the guard the compiler applies at each
      (`guardAt`), with `tailcall_guard_missing` (F5);
   4. `call_guard_nongeneric_sound`: the non-generic branch of the call guard is sound given C09's
@@ -94,7 +96,7 @@ theorem unify_anyVariant_unsound : ¬ GuardUnifySound Rules.beforeF6 := by
   rw [F6_value_outside] at hf
   exact Bool.false_ne_true hf
 
-/-! ### Finding: a `Cycle` position is never checked (heterogeneous recursive argument)
+/-! ### 1b. Finding (open): a `Cycle` position is never checked (heterogeneous recursive argument)
 
 `'list<'t> = Nil | Cons['t, ^]`, parameter `'list<'t>`, argument the literal
 `Cons[1, Cons[0x00, Nil]]` of type `Cons['int, Cons['bin, Nil]]`.
@@ -107,10 +109,11 @@ def tCyc : Table :=
     tuples := [⟨none, []⟩, ⟨some 1, []⟩, ⟨some 10, []⟩, ⟨some 11, [(none, 2), (none, 4)]⟩,
                ⟨some 11, [(none, 1), (none, 3)]⟩, ⟨some 11, [(none, 0), (none, 7)]⟩] }
 
+/-- `Cons[0x00, Nil]` -/
+def vInner : V := .tup (some 11) (.cons none (.bin [0]) (.cons none (.tup (some 10) .nil) .nil))
+
 /-- `Cons[1, Cons[0x00, Nil]]` -/
-def vCyc : V :=
-  .tup (some 11) (.cons none (.int 1) (.cons none
-    (.tup (some 11) (.cons none (.bin [0]) (.cons none (.tup (some 10) .nil) .nil))) .nil))
+def vCyc : V := .tup (some 11) (.cons none (.int 1) (.cons none vInner .nil))
 
 /-- the guard accepts with `'t := 'int` (only the head is looked at: the tail meets the `Cycle`
 arm), the instantiated parameter is `'list<'int>` (new type 10), and the argument value — a value
@@ -123,7 +126,71 @@ theorem unify_cycle_arm_unsound : guardInstance Rules.current 24 tCyc 6 8 vCyc =
 /-- under the strict cycle rule the same instance is rejected. -/
 theorem unify_cycle_arm_strict_rejects : guardRejects { cycle := .strict } 24 tCyc 6 8 = true := by decide
 
-/-! ### Finding: the union/union arm drops a widened binding
+/-- the table after substitution: tuple 6 `Cons['int, ^]`, type 9, type 10 `Nil | Cons['int, ^]`. -/
+def tCyc'' : Table :=
+  { types := tCyc.types ++ [.tuple 6, .union [3, 9]], tuples := tCyc.tuples ++ [⟨some 11, [(none, 0), (none, 4)]⟩] }
+
+theorem cyc_ty0 : tCyc''.types[0]? = some .integer := rfl
+theorem cyc_ty3 : tCyc''.types[3]? = some (.tuple 2) := rfl
+theorem cyc_ty4 : tCyc''.types[4]? = some (.cycle 1) := rfl
+theorem cyc_ty9 : tCyc''.types[9]? = some (.tuple 6) := rfl
+theorem cyc_ty10 : tCyc''.types[10]? = some (.union [3, 9]) := rfl
+theorem cyc_tu2 : tCyc''.tuples[2]? = some ⟨some 10, []⟩ := rfl
+theorem cyc_tu6 : tCyc''.tuples[6]? = some ⟨some 11, [(none, 0), (none, 4)]⟩ := rfl
+
+theorem int_rejects_bin (f : Nat) (st : List Nat) : inhB tCyc'' f st 0 (.bin [0]) = false := by
+  cases f <;> simp [inhB, cyc_ty0]
+
+theorem nil_rejects_cons (f : Nat) (st : List Nat) (fs : VFields) :
+    inhB tCyc'' f st 3 (.tup (some 11) fs) = false := by
+  cases f <;> simp [inhB, cyc_ty3, cyc_tu2]
+
+theorem cons_int_rejects_inner (f : Nat) (st : List Nat) : inhB tCyc'' f st 9 vInner = false := by
+  cases f with
+  | zero => simp [inhB]
+  | succ f => simp [inhB, cyc_ty9, cyc_tu6, vInner, fieldsB, int_rejects_bin]
+
+theorem list_int_rejects_inner (f : Nat) : inhB tCyc'' f [] 10 vInner = false := by
+  cases f with
+  | zero => simp [inhB]
+  | succ f =>
+    have h1 := nil_rejects_cons f [10] (.cons none (.bin [0]) (.cons none (.tup (some 10) .nil) .nil))
+    have h2 := cons_int_rejects_inner f [10]
+    simp only [vInner] at h2
+    simp [inhB, cyc_ty10, vInner, h1, h2]
+
+theorem cycle_rejects_inner (f : Nat) : inhB tCyc'' f [10] 4 vInner = false := by
+  cases f with
+  | zero => simp [inhB]
+  | succ f => simp [inhB, cyc_ty4, resolveCycle, list_int_rejects_inner]
+
+theorem cons_int_rejects_vCyc (f : Nat) : inhB tCyc'' f [10] 9 vCyc = false := by
+  cases f with
+  | zero => simp [inhB]
+  | succ f => simp [inhB, cyc_ty9, cyc_tu6, vCyc, fieldsB, cycle_rejects_inner]
+
+/-- …for every fuel: `Cons[1, Cons[0x00, Nil]]` is not a list of integers. -/
+theorem cycle_value_outside (fuel : Nat) : inhB tCyc'' fuel [] 10 vCyc = false := by
+  cases fuel with
+  | zero => simp [inhB]
+  | succ f =>
+    have h1 := nil_rejects_cons f [10] (.cons none (.int 1) (.cons none vInner .nil))
+    have h2 := cons_int_rejects_vCyc f
+    simp only [vCyc] at h2
+    simp [inhB, cyc_ty10, vCyc, h1, h2]
+
+/-- The full statement is false for the code as it is. -/
+theorem guard_unify_sound_refuted : ¬ GuardUnifySoundStatement := by
+  intro h
+  have hc : Closed tCyc 8 := ⟨8, by decide⟩
+  have hu : unifyWith Rules.current 24 24 tCyc [] 6 8 = some (tCyc, some [(7, 0)]) := by decide
+  have hs : substitute [(7, 0)] 24 tCyc 6 = some (tCyc'', 10) := by decide
+  have hv : inh tCyc [] 8 vCyc := ⟨12, by decide⟩
+  obtain ⟨fuel, hf⟩ := h tCyc tCyc tCyc'' 24 24 24 6 8 10 [(7, 0)] hc hu hs vCyc hv
+  rw [cycle_value_outside] at hf
+  exact Bool.false_ne_true hf
+
+/-! ### The union/union merge (repaired by e4496af)
 
 `'ab<'t> = A['t] | B['t]`, argument type `A['int] | B['bin]` (a maker function's result), value
 `B[0x00]`. names: A = 20, B = 21.
@@ -137,15 +204,14 @@ def tMrg : Table :=
 /-- `B[0x00]` -/
 def vMrg : V := .tup (some 21) (.cons none (.bin [0]) .nil)
 
-/-- the second variant's attempt widens `'t` to `'int | 'bin`, but the merge loop skips that
-binding because it is not assignable to the existing `'int`: the guard answers `'t := 'int`, and
-`B[0x00]` is outside `A['int] | B['int]` (new type 11). -/
-theorem unify_union_merge_unsound : guardInstance Rules.current 24 tMrg 5 8 vMrg = some (11, true, false) := by
-  decide
+/-- before e4496af: the second variant's attempt widens `'t` to `'int | 'bin`, but the merge loop
+skips that binding because it is not assignable to the existing `'int`: the guard answers
+`'t := 'int`, and `B[0x00]` is outside `A['int] | B['int]` (new type 11). -/
+theorem merge_old_rule_unsound :
+    guardInstance Rules.beforeMergeFix 24 tMrg 5 8 vMrg = some (11, true, false) := by decide
 
-/-- taking the widened binding instead, the same instance is typed correctly. -/
-theorem unify_union_merge_widened_ok :
-    guardInstance { merge := .takeWidened } 24 tMrg 5 8 vMrg = some (12, true, true) := by decide
+/-- the current rule adopts the attempt's bindings: the same instance is typed correctly. -/
+theorem merge_repaired : guardInstance Rules.current 24 tMrg 5 8 vMrg = some (12, true, true) := by decide
 
 /-- the table after unification (the failed widening attempt registered `'int | 'bin` as type 9). -/
 def tMrg' : Table := { tMrg with types := tMrg.types ++ [.union [0, 1]] }
@@ -159,11 +225,12 @@ theorem merge_value_outside (fuel : Nat) : inhB tMrg'' fuel [] 11 vMrg = false :
   rcases fuel with _ | _ | _ | fuel <;>
     simp [inhB, fieldsB, tMrg'', tMrg', tMrg, vMrg]
 
-/-- The full statement is false for the code as it is (cycle-free, first-order counterexample). -/
-theorem guard_unify_sound_refuted : ¬ GuardUnifySoundStatement := by
+/-- hence the full statement fails for the rule set before e4496af, on a cycle-free first-order
+instance. -/
+theorem unify_merge_skip_unsound : ¬ GuardUnifySound Rules.beforeMergeFix := by
   intro h
   have hc : Closed tMrg 8 := ⟨8, by decide⟩
-  have hu : unifyWith Rules.current 24 24 tMrg [] 5 8 = some (tMrg', some [(7, 0)]) := by decide
+  have hu : unifyWith Rules.beforeMergeFix 24 24 tMrg [] 5 8 = some (tMrg', some [(7, 0)]) := by decide
   have hs : substitute [(7, 0)] 24 tMrg' 5 = some (tMrg'', 11) := by decide
   have hv : inh tMrg [] 8 vMrg := ⟨8, by decide⟩
   obtain ⟨fuel, hf⟩ := h tMrg tMrg' tMrg'' 24 24 24 5 8 11 [(7, 0)] hc hu hs vMrg hv
